@@ -695,10 +695,28 @@ def dec_vectors():
     if _DEC_VECS is None:
         out = []
         req = spaces.v3_req_all()
+        te3 = spaces.v3_temporal_effective()
         for fam in ("3.0", "3.1"):
             for fb, db in spaces.v3_base_all():
                 for fr, dr in req:
                     out.append((fam, T.PREFIX[fam] + fb + "/" + fr + "/E:P/RL:T"))
+                # every temporal product of every base score (the temporal equation is where an
+                # ambient rounding mode would enter)
+                for ft, dt in te3:
+                    out.append((fam, T.PREFIX[fam] + fb + "/" + ft))
+            doms = spaces._domains(fam)
+            for k in range(15000):
+                a = spaces.interaction_row(fam, k, doms)
+                out.append((fam, T.spell(fam, a, [m for m, _ in doms if m in a])))
+        te2 = spaces.v2_temporal_effective()
+        for fb, _ in spaces.v2_base_all():
+            for ft, _ in te2:
+                out.append(("2", fb + "/" + ft))
+        for fam in ("2", "4.0"):
+            doms = spaces._domains(fam)
+            for k in range(15000 if fam == "2" else 8000):
+                a = spaces.interaction_row(fam, k, doms)
+                out.append((fam, T.spell(fam, a, [m for m, _ in doms if m in a])))
         for b in spaces.v2_blocks("quick")[1:3]:
             for fa, _ in b.A:
                 for fb, _ in b.B[::3]:
@@ -738,6 +756,40 @@ def _dec_task(t):
     parse_cvss_from_text(TEXT + " " + V31 + "/MA:Q AV:N/AC:L/Au:N/C:P/I:P/A:Q")
     after = opseq.ambient_snapshot()["decimal"]
     return chunk_digests, before == after, after
+
+
+TRAP_SETS = [["FloatOperation"], ["Inexact"], ["Rounded"], ["Subnormal", "Underflow", "Clamped"],
+             ["FloatOperation", "Inexact", "Rounded"], []]
+
+
+def _dec_traps_task(t):
+    """The caller's context traps more (or fewer) signals than the default one. What the library
+    computes or raises there is not the question (the statement's contexts are the default traps);
+    the caller's context must come out of every call exactly as it went in."""
+    names, rounding = t
+    base = [decimal.InvalidOperation, decimal.DivisionByZero, decimal.Overflow] if names else []
+    decimal.setcontext(decimal.Context(prec=28, rounding=getattr(decimal, rounding),
+                                       traps=base + [getattr(decimal, n) for n in names]))
+    before = opseq.ambient_snapshot()["decimal"]
+    import cvss
+    from cvss.parser import parse_cvss_from_text
+    n = 0
+    for fam, v in dec_vectors()[::997] + [(f, s) for f in T.FAMILIES for s, _ in observe.covering_seeds(f, 12)]:
+        cls = observe.cls_of(fam)
+        for f in (lambda: cls(v), lambda: observe.observation(fam, cls(v)), lambda: cls(v).as_json(sort=True, minimal=True),
+                  lambda: cls.from_rh_vector("0.0/" + v), lambda: cls.from_rh_vector(cls(v).rh_vector())):
+            _try(f)
+            n += 1
+            now = opseq.ambient_snapshot()["decimal"]
+            if now != before:
+                return n, False, now, [fam, v]
+    for cls in (cvss.CVSS2, cvss.CVSS3, cvss.CVSS4):
+        for bad in ("", "AV:N", V2A + "/AV:L", V31 + "/MA:Q", V4B + "/ZZ:1"):
+            _try(lambda: cls(bad))
+            _try(lambda: cls.from_rh_vector("x/" + bad))
+    _try(lambda: parse_cvss_from_text(TEXT))
+    now = opseq.ambient_snapshot()["decimal"]
+    return n, now == before, now, None
 
 
 def _dec_obs(fam, v):
@@ -789,6 +841,12 @@ def explore_decimal(ctx, res):
                                    "kind": "decimal", "input": {"ctx": list(spec), "family": fd[1][0], "vector": fd[1][1]},
                                    "signature": {"kind": "decimal"}})
                 break
+    tspecs = [(names, r) for names in TRAP_SETS for r in ("ROUND_HALF_EVEN", "ROUND_DOWN")]
+    for spec, (n, unchanged, after, where) in zip(tspecs, fresh_pool_map(_dec_traps_task, tspecs)):
+        if not unchanged:
+            res.add_violation({"what": "the caller's decimal context (traps %s, %s) is modified by the library%s: now %s" % (
+                spec[0] or "none", spec[1], " while handling %s(%r)" % (T.CLASSNAME[where[0]], where[1]) if where else "", after),
+                "kind": "decimal_traps", "input": [spec[0], spec[1]], "signature": {"kind": "decimal_ctx"}})
     # ambient context set *before import* as well: the probe program in a subprocess
     cfg0 = config.Config("decimal-default", sys.executable, "0")
     sub = [config.Config("decimal-%d-%s" % (p, r), sys.executable, "0", (p, r))
@@ -952,6 +1010,9 @@ def replay(case):
         decimal.setcontext(decimal.Context(prec=i["ctx"][0], rounding=getattr(decimal, i["ctx"][1])))
         b = observe.cls_of(fam)(v).scores()
         return repr(a) != repr(b), "default %r, under context %r" % (a, b)
+    if k == "decimal_traps":
+        n, unchanged, after, where = _dec_traps_task(tuple(case["input"]))
+        return not unchanged, "context afterwards: %s" % (after,)
     if k == "decimal_ctx":
         p, r = case["input"]
         decimal.setcontext(decimal.Context(prec=p, rounding=getattr(decimal, r)))
